@@ -243,6 +243,23 @@ def search(ctx, boost=1, focus=()):
                 r = float(c[1])
             else:
                 fx = float(c[1] + r)
+        if k % 5 == 4 and len(flat):
+            # a margin of about half of an ODD short axis: the band r <= p < f - r is one pixel row / column wide and holds the
+            # lattice point that sits on the frame's centre line
+            kk = int(rng.integers(6, 40))
+            j = int(rng.integers(len(flat)))
+            ax = (k // 5) % 2
+            c = zero + flat[j][0] * a + flat[j][1] * b
+            half = float(kk) + [0.0, 0.25, 0.0][k % 3]
+            zero = zero.copy()
+            zero[ax] += (kk + [0.0, 0.5, 0.25][(k // 3) % 3]) - c[ax]      # that lattice point lands in [kk, kk + 1)
+            if ax == 0:
+                fy, r = float(2 * kk + 1), half
+                fx = max(fx, 4 * kk + 3.0)
+            else:
+                fx, r = float(2 * kk + 1), half
+                fy = max(fy, 4 * kk + 3.0)
+            ctx.count("half_axis_margin")
         p = {"zero": zero, "a": a, "b": b, "idx": idx, "fy": fy, "fx": fx, "r": r}
         ctx.oracle_case("lattice", p, run_case("lattice", p))
         ctx.count("oracle_" + layout)
